@@ -108,7 +108,7 @@ def mode_history(ops, table, seed, n_hist):
     return {"executed": executed, "mismatches": mism[:20], "n_mismatch": len(mism), "disturbances": dist}
 
 
-def mode_threads(ops, table, seed, T, p, per_thread=0):
+def mode_threads(ops, table, seed, T, p, per_thread=0, only_kinds=None, tucan_only=False):
     lock = threading.Lock()
     fills = []  # (thread index, simulator) in order of cache fills
     tidx = {}
@@ -135,7 +135,7 @@ def mode_threads(ops, table, seed, T, p, per_thread=0):
     state = {"switches": 0, "last": None, "events": 0, "yields": 0}
     switch_trace = []  # (thread index, code name) at each observed context switch
     rngs = {}
-    keep = ("/antlr4/", os.sep + "tucan" + os.sep)
+    keep = (os.sep + "tucan" + os.sep,) if tucan_only else ("/antlr4/", os.sep + "tucan" + os.sep)
 
     def on_line(code, line):
         fn = code.co_filename
@@ -165,9 +165,11 @@ def mode_threads(ops, table, seed, T, p, per_thread=0):
         tidx[threading.get_ident()] = i
         rngs[threading.get_ident()] = random.Random(f"yield/{seed}/{i}")
         r = random.Random(f"order/{seed}/{i}")
-        order = list(ops)
+        order = [o for o in ops if only_kinds is None or o["op"] in only_kinds]
         r.shuffle(order)
-        if per_thread and per_thread < len(order):
+        if only_kinds is not None:
+            order = order[:per_thread or 2]
+        elif per_thread and per_thread < len(order):
             # keep the workload parser-heavy: the shared ANTLR cache is what concurrent callers actually share
             parses = [o for o in order if o["op"] in ("parse", "norm")][: per_thread // 2]
             rest = [o for o in order if o not in parses][: per_thread - len(parses)]
@@ -206,6 +208,94 @@ def mode_threads(ops, table, seed, T, p, per_thread=0):
             "threads_that_filled_cache": len({f[0] for f in fills}), "fill_alternations": alternations, "fill_signature": sig, "wall_s": round(time.time() - t0, 2)}
 
 
+def mode_preempt(ops, table, op_id, k):
+    """Systematic schedule: thread A runs the operation and is suspended at its k-th library source line; thread B then runs the same
+    operation from start to end; A resumes. (One pre-emption at every possible line, in a fresh process: lazy one-time initialisation,
+    shared module state.) Returns both results compared with the table."""
+    op = next(o for o in ops if o["id"] == op_id)
+    mon = sys.monitoring
+    TOOL = 3
+    mon.use_tool_id(TOOL, "rv-c14-preempt")
+    keep = os.sep + "tucan" + os.sep
+    state = {"count": 0, "a": None, "suspended_at": None}
+    b_start, b_done = threading.Event(), threading.Event()
+
+    def on_line(code, line):
+        if keep not in code.co_filename or os.path.basename(code.co_filename) in ("tucanParser.py", "tucanLexer.py", "tucanListener.py"):
+            return mon.DISABLE  # hand-written library code only (the generated recogniser is swept by the yield-injection runs)
+        if threading.get_ident() != state["a"]:
+            return None
+        state["count"] += 1
+        if state["count"] == k:
+            state["suspended_at"] = f"{os.path.basename(code.co_filename)}:{line}"
+            b_start.set()
+            b_done.wait(timeout=60)
+        return None
+
+    res = {}
+
+    def run_a():
+        state["a"] = threading.get_ident()
+        res["a"] = digest(execute(op))
+        b_start.set()  # if A had fewer than k lines, let B go now
+
+    def run_b():
+        b_start.wait(timeout=60)
+        res["b"] = digest(execute(op))
+        b_done.set()
+
+    mon.register_callback(TOOL, mon.events.LINE, on_line)
+    ta, tb = threading.Thread(target=run_a), threading.Thread(target=run_b)
+    mon.set_events(TOOL, mon.events.LINE)
+    tb.start(); ta.start()
+    ta.join(); tb.join()
+    mon.set_events(TOOL, 0)
+    want = table[op_id]
+    return {"lines_in_a": state["count"], "suspended_at": state["suspended_at"], "a_ok": res.get("a") == want, "b_ok": res.get("b") == want, "k": k}
+
+
+def mode_preempt_sweep(ops, table, op_id, k_first, k_step):
+    """All single-pre-emption schedules k = k_first, k_first+k_step, ... of one operation, each in a FORKED child of this process, which has
+    imported the library but never called it: every child starts from the same cold state as a fresh interpreter (lazy initialisation not yet
+    done, parser caches empty) at a fraction of the start-up cost."""
+    import select
+    results, k, L = [], k_first, None
+    while L is None or k <= L:
+        rfd, wfd = os.pipe()
+        pid = os.fork()
+        if pid == 0:
+            try:
+                os.close(rfd)
+                out = mode_preempt(ops, table, op_id, k)
+                os.write(wfd, json.dumps(out).encode())
+            finally:
+                os._exit(0)
+        os.close(wfd)
+        buf = b""
+        ready, _, _ = select.select([rfd], [], [], 120)
+        if ready:
+            while True:
+                chunk = os.read(rfd, 65536)
+                if not chunk:
+                    break
+                buf += chunk
+        else:
+            os.kill(pid, 9)
+        os.close(rfd)
+        os.waitpid(pid, 0)
+        if not buf:
+            results.append({"k": k, "a_ok": False, "b_ok": False, "suspended_at": "child died or hung", "lines_in_a": L or 0})
+            if L is None:
+                break
+        else:
+            r = json.loads(buf)
+            L = r["lines_in_a"] if L is None else L
+            results.append(r)
+        k += k_step
+    bad = [r for r in results if not (r["a_ok"] and r["b_ok"])]
+    return {"schedules": len(results), "lines_in_operation": L, "failing": bad[:10], "n_failing": len(bad)}
+
+
 def main():
     ops = json.load(open(sys.argv[1]))
     mode = sys.argv[2]
@@ -213,6 +303,13 @@ def main():
         out = mode_table(ops)
     elif mode == "history":
         out = mode_history(ops, json.load(open(sys.argv[3])), sys.argv[4], int(sys.argv[5]))
+    elif mode == "preempt_sweep":
+        out = mode_preempt_sweep(ops, json.load(open(sys.argv[3])), sys.argv[4], int(sys.argv[5]), int(sys.argv[6]))
+    elif mode == "preempt":
+        out = mode_preempt(ops, json.load(open(sys.argv[3])), sys.argv[4], int(sys.argv[5]))
+    elif mode == "coldstart":
+        # the FIRST library calls of a fresh process come from several threads at once (lazy one-time initialisation is where this matters)
+        out = mode_threads(ops, json.load(open(sys.argv[3])), sys.argv[4], int(sys.argv[5]), float(sys.argv[6]), 2, only_kinds=("read", "ser_text", "parse"), tucan_only=True)
     elif mode == "threads":
         out = mode_threads(ops, json.load(open(sys.argv[3])), sys.argv[4], int(sys.argv[5]), float(sys.argv[6]), int(sys.argv[7]) if len(sys.argv) > 7 else 0)
     json.dump(out, sys.stdout)
